@@ -232,12 +232,44 @@ def flavour_world(rng, flavour):
                         ((0, "w"), (1, "q"), "x2")]
         H.links_active = list(rng.choice([c for c in link_configs(H.links_pool) if len(c) >= 1]))
         H.cross_refs = {0: [["c", 1, "p"], ["c", 1, "q"]], 1: [["c", 0, "v"], ["c", 0, "w"]]}
+    elif flavour == "aligned":
+        # two or three datasets without coords whose pixel axes are linked one to one (same or permuted axis order), so
+        # that Data.pixel_aligned_data is populated and slice-like states carry over to the other datasets
+        nd = rng.choice([2, 3, 3])
+        shape = tuple(rng.sample([2, 3, 4, 5], nd))          # distinct lengths: a wrong axis order is visible
+        nds = rng.choice([2, 2, 3])
+        H.models = []
+        H.perms = []
+        for k in range(nds):
+            if k == 0:
+                perm = list(range(nd))
+            elif nd == 3 and rng.random() < 0.4:
+                perm = rng.choice([[1, 2, 0], [2, 0, 1]])          # cyclic permutation
+            else:
+                perm = rng.choice([list(range(nd)), rng.sample(range(nd), nd)])
+            H.perms.append(perm)
+            m = W.gen_data_model(rng, "d%d" % k, tuple(shape[perm[j]] for j in range(nd)), ["v", "w", "i"])
+            m.restrict = list(range(nd))                          # states refer to the pixel axes of their home dataset
+            H.models.append(m)
+        # axis j of dataset k is axis perm[j] of dataset 0
+        H.links_pool = [((0, H.perms[k][j]), (k, j), None) for k in range(1, nds) for j in range(nd)]
+        H.links_active = list(range(len(H.links_pool)))
+        H.cross_refs = {k: [["p", o, a] for o in range(nds) if o != k for a in range(nd)] for k in range(nds)}
     else:
         raise ValueError(flavour)
     return H
 
 
+def eval_targets(H, k):
+    """Datasets on which state k is evaluated."""
+    if H.flavour in ("linked", "aligned"):
+        return list(range(len(H.models)))
+    return [H.home[k]]
+
+
 def can_add_link(H, k):
+    if H.flavour == "aligned":
+        return k not in H.links_active
     used = set()
     for j in H.links_active:
         used |= W.link_ends(H.links_pool[j])
@@ -290,6 +322,9 @@ def run_state_history(ctx, flavour, hid):
         di = rng.randrange(len(H.models))
         depth = rng.choice([0, 0, 1, 1, 2, 2, 3])
         kinds = ("ineq", "range", "multirange", "roi") if flavour == "linked" else None
+        if flavour == "aligned":
+            depth = rng.choice([0, 0, 0, 1, 1, 2])
+            kinds = ("slice", "slice", "pixslice", "pixslice", "ineq", "range", "roi", "mask")
         H.descs.append(W.gen_state(rng, H.models, di, depth, kinds))
         H.home.append(di)
     H.registered = [k for k in range(ns) if rng.random() < 0.5]
@@ -304,8 +339,7 @@ def run_state_history(ctx, flavour, hid):
     # ---- initial reads (warm the caches)
     H.reads = []
     for k in range(ns):
-        targets = [H.home[k]] if flavour != "linked" else [0, 1]
-        for di in targets:
+        for di in eval_targets(H, k):
             for _ in range(rng.randint(1, 3)):
                 H.reads.append(gen_read(rng, H, k, di, k in H.registered))
     for di in range(len(H.models)):
@@ -331,7 +365,7 @@ def run_state_history(ctx, flavour, hid):
         if rng.random() < 0.5 and len(H.reads) < 16:
             k = rng.randrange(ns)
             if k not in H.poisoned:
-                di = H.home[k] if flavour != "linked" else rng.randrange(2)
+                di = rng.choice(eval_targets(H, k))
                 r = gen_read(rng, H, k, di, k in H.registered)
                 H.reads.append(r)
                 r["last"] = exec_read(H.live, r)
@@ -344,6 +378,23 @@ def choose_mutation(rng, H):
     fl = H.flavour
     r = rng.random()
     alive = [k for k in range(len(H.live.states)) if k not in H.poisoned]
+    if fl == "aligned" and r < 0.55:
+        act, allk = list(H.links_active), list(range(len(H.links_pool)))
+        opts = []
+        if act:
+            opts += ["links_clear_set", "links_remove_list", "links_clear_delayed", "link_remove", "link_remove"]
+        if len(act) < len(allk):
+            opts += ["link_add", "links_add_list", "links_set_all"]
+            if not act:
+                opts += ["links_add_list", "links_set_all"]
+        op = rng.choice(opts)
+        mut = {"op": op, "kind": "link_change", "no_links_left": op.startswith("links_clear") or op == "links_remove_list"
+               or (op == "link_remove" and len(act) == 1)}
+        if op == "link_remove":
+            mut["k"] = rng.choice(act)
+        if op == "link_add":
+            mut["k"] = rng.choice([k for k in allk if k not in act])
+        return mut
     if fl == "linked" and r < 0.17:
         # atomic replacement of the link set: the link manager sees only the final set, so a dataset's table of
         # externally derivable components is replaced in one go - possibly with the very same ids derivable through
@@ -374,7 +425,7 @@ def choose_mutation(rng, H):
         if not cands:
             return {"op": "link_remove", "kind": "link_change", "k": k}
         return {"op": op, "kind": "link_change", "k": k, "j": rng.choice(cands)}
-    if r < (0.6 if fl == "linked" else 0.45) or not alive:
+    if r < ({"linked": 0.6, "aligned": 0.75}.get(fl, 0.45)) or not alive:
         di = rng.randrange(len(H.models))
         m = H.models[di]
         uv_ok = m.coords is None and not m.derived
@@ -390,8 +441,8 @@ def choose_mutation(rng, H):
         if not uv_ok:
             H.ctx.count("excluded:update_values_from_data_on_data_with_coords_or_derived")
         names = m.names("float", "int", "pos")
-        if m.restrict is not None:
-            names = list(m.restrict)
+        if m.restrict is not None and any(isinstance(n, str) for n in m.restrict):
+            names = [n for n in m.restrict if isinstance(n, str)]
         chosen = rng.sample(names, rng.randint(1, min(2, len(names))))
         return {"op": "update_components", "kind": "update_components", "d": di, "names": chosen,
                 "key": rng.choice(["cid", "component"])}
@@ -458,6 +509,34 @@ def perform(H, mut):
             return False
         if H.probe is not None:
             H.probe.todo = None
+        verify(H, H.reads, twin, mut, False)
+        return True
+    if op in ("links_clear_set", "links_remove_list", "links_clear_delayed", "links_add_list", "links_set_all"):
+        try:
+            if op == "links_clear_set":
+                live.dc.set_links([])
+                live.links = {}
+            elif op == "links_remove_list":
+                live.dc.remove_link(list(live.links.values()))
+                live.links = {}
+            elif op == "links_clear_delayed":
+                with live.dc.delay_link_manager_update():
+                    for j in list(live.links):
+                        live.dc.remove_link(live.links.pop(j))
+            elif op == "links_add_list":
+                new = {j: W.make_link(H.links_pool[j], live.datas) for j in range(len(H.links_pool))
+                       if j not in live.links}
+                live.dc.add_link(list(new.values()))
+                live.links.update(new)
+            else:
+                live.links = {j: W.make_link(H.links_pool[j], live.datas) for j in range(len(H.links_pool))}
+                live.dc.set_links(list(live.links.values()))
+            H.links_active = sorted(live.links)
+        except Exception as e:
+            ctx.violation({"kind": "mutation_raised", "mutation": mut["kind"], "op": op, "exception": type(e).__name__},
+                          {"history": describe_history(H), "error": repr(e)[:300]})
+            return False
+        twin = twin_of(H)
         verify(H, H.reads, twin, mut, False)
         return True
     if op in ("link_set", "link_delayed", "link_delayed_all"):
@@ -572,6 +651,10 @@ def verify(H, reads, twin, mut, during):
         if nontrivial:
             ctx.count("post_mutation_rereads_truth_changed:" + tag)
             ctx.count("truth_changed_kind:" + READ_FAMILY[r["k"]])
+            if mut.get("pressure", 0) > 4096:
+                ctx.count("post_mutation_rereads_truth_changed:after_more_than_4096_memo_entries")
+            if mut.get("no_links_left"):
+                ctx.count("post_mutation_rereads_truth_changed:link_change_to_no_links_at_all")
             if mut.get("same_ids"):
                 ctx.count("post_mutation_rereads_truth_changed:link_change_atomic_same_derivable_ids")
                 ctx.count("truth_changed_atomic_same_ids_kind:" + READ_FAMILY[r["k"]])
@@ -616,7 +699,7 @@ def sweep_nodes(H, twin, mut, during):
     for k, st in enumerate(H.live.states):
         if k in H.poisoned:
             continue
-        for di in ([H.home[k]] if H.flavour != "linked" else [0, 1]):
+        for di in eval_targets(H, k):
             ld, td = H.live.datas[di], twin.datas[di]
             bad = None
             n = 0
@@ -792,11 +875,132 @@ def describe_history(H):
             "links_pool": H.links_pool, "links_active": H.links_active, "mutations": H.mutlog}
 
 
+# ---------------------------------------------------------------- memo pressure
+PRESSURE_N = [100, 100, 1000, 1000, 5000, 5000, 5000, 10000, 10000]
+
+
+def pressure_desc(rng, mode, j, nd):
+    """j-th of N distinct states of one memoized class."""
+    thr = -6.0 + 0.0013 * j
+    att = ["c", 0, "w"]
+    if mode == "ineq":
+        return ["ineq", att, "gt", ["num", thr]]
+    if mode == "and":       # children are not memoized: only the composite memo fills up
+        return ["and", ["range", thr, thr + 4.0, att], ["range", -9.0, 9.0, ["c", 0, "v"]]]
+    if mode == "not":
+        return ["not", ["range", thr, thr + 4.0, att]]
+    if mode == "multior":
+        return ["multior", [["range", thr, thr + 2.0, att], ["range", thr + 5.0, thr + 6.0, att]]]
+    if mode == "category":
+        return ["category", ["c", 0, "c"], [j % 4, (j // 4) % 4]]
+    if mode == "element":
+        return ["element", [j % nd, (j // nd) % nd], None]
+    raise ValueError(mode)
+
+
+def run_pressure_history(ctx, hid):
+    """N distinct memoized (state, data, view) combinations of one state class are evaluated with no change of values in
+    between (the memo of that class holds N entries), then the values change: a sample of the combinations, read before,
+    must equal the fresh twin.  Either N distinct states (thresholds) or one state under N distinct views."""
+    rng = ctx.rng
+    H = History()
+    H.ctx, H.flavour = ctx, "pressure"
+    H.links_pool, H.links_active, H.cross_refs = [], [], {}
+    H.with_dc = rng.random() < 0.8
+    N = rng.choice(PRESSURE_N)
+    by_views = rng.random() < 0.35
+    if by_views:
+        shape = (4, 5, 3)
+        names = ["v", "w", "i"]
+        mode = rng.choice(["ineq", "and", "not", "multior"])
+    else:
+        shape = (rng.randint(3, 5),)
+        names = ["v", "w", "i", "c", "c2"]
+        mode = rng.choice(["ineq", "ineq", "and", "not", "multior", "category", "element"])
+    H.models = [W.gen_data_model(rng, "d0", shape, names)]
+    size = H.models[0].size
+    ntrack = 10
+    if by_views:
+        H.descs = [pressure_desc(rng, mode, rng.randrange(4000), size)]
+        views, seen = [], set()
+        while len(views) < N:
+            v = tuple(slice(rng.randrange(0, n), rng.randrange(0, n + 1), rng.choice([None, 1, 2, 3])) for n in shape)
+            key = tuple((x.start, x.stop, x.step) for x in v)
+            if key not in seen:
+                seen.add(key)
+                views.append(v)
+        track = sorted(set([0, 1, N - 1, N - 2] + [rng.randrange(N) for _ in range(ntrack)]))
+    else:
+        track = sorted(set([0, 1, N - 1, N - 2] + [rng.randrange(N) for _ in range(ntrack)]))
+        H.descs = [pressure_desc(rng, mode, j, size) for j in track]
+    H.home = [0] * len(H.descs)
+    H.registered = [k for k in range(len(H.descs)) if rng.random() < 0.3]
+    H.live = W.build_world(H.models, H.descs, (), (), H.with_dc, H.registered)
+    H.probe = Probe(H.live.dc.hub) if H.with_dc else None
+    H.mutlog, H.touch, H.poisoned = [], {}, set()
+    ctx.count("histories:pressure")
+    ctx.count("histories:pressure:N=%d" % N)
+    ctx.count("histories:pressure:" + ("views" if by_views else "states") + ":" + mode)
+    ctx.count("histories")
+    d = H.live.datas[0]
+
+    # reads of the tracked combinations, tagged with their position in the fill order
+    H.reads = []
+    for pos, j in enumerate(track):
+        if by_views:
+            r = {"k": "mask", "d": 0, "s": 0, "via": rng.choice(["get_mask", "to_mask_pos"]), "vk": "slice_tuple_full",
+                 "view": views[j], "last": None, "nreads": 0, "fill_pos": j}
+            H.reads.append(r)
+        else:
+            r = gen_read(rng, H, pos, 0, pos in H.registered)
+            r["fill_pos"] = j
+            H.reads.append({"k": "mask", "d": 0, "s": pos, "via": "get_mask", "vk": "none", "view": None, "last": None,
+                            "nreads": 0, "fill_pos": j})
+            H.reads.append(r)
+    if by_views:
+        for _ in range(3):
+            r = gen_read(rng, H, 0, 0, 0 in H.registered)
+            r["fill_pos"] = -1
+            H.reads.append(r)
+    twin = twin_of(H)
+    none = {"op": "none", "kind": "none"}
+    # fill: the tracked combinations are evaluated at their own position among the N, so some entries are created
+    # early and some after thousands of others
+    tracked_at = {}
+    for r in H.reads:
+        tracked_at.setdefault(r["fill_pos"], []).append(r)
+    verify(H, tracked_at.get(-1, []), twin, none, False)
+    st0 = H.live.states[0]
+    for j in range(N):
+        if j in tracked_at:
+            verify(H, tracked_at[j], twin, none, False)
+        elif by_views:
+            d.get_mask(st0, view=views[j])
+        else:
+            d.get_mask(W.build_state(pressure_desc(rng, mode, j, size), H.live.datas))
+    ctx.count("pressure_fill_evaluations", N)
+
+    for step in range(rng.randint(2, 3)):
+        m = H.models[0]
+        if rng.random() < 0.3 and not by_views:
+            new_shape = rng.random() < 0.5 and mode not in ("element",)
+            shp = (max(3, m.shape[0] + rng.choice([-1, 1, 2])),) if new_shape else m.shape
+            mut = {"op": "update_values_from_data", "kind": "update_values_from_data", "d": 0, "shape": list(shp),
+                   "new_shape": new_shape, "extra": False}
+        else:
+            mut = {"op": "update_components", "kind": "update_components", "d": 0,
+                   "names": rng.sample(["v", "w"], rng.randint(1, 2)), "key": rng.choice(["cid", "component"])}
+        mut["pressure"] = N
+        if not perform(H, mut):
+            break
+    clear_all_memo()
+
+
 # ---------------------------------------------------------------- cases
 N_BLOCKS = {"quick": 1600, "thorough": 60000}
-PATTERN = ["table", "cube", "hist", "linked", "prof", "indexed", "cube", "prof", "linked", "hist", "table", "cube", "hist",
-           "prof"]
-PER_BLOCK = {"table": 5, "cube": 5, "linked": 5, "indexed": 6, "hist": 2, "prof": 2}
+PATTERN = ["table", "cube", "hist", "linked", "prof", "indexed", "aligned", "prof", "linked", "hist", "table", "cube",
+           "hist", "prof", "pressure", "aligned", "pressure"]
+PER_BLOCK = {"table": 5, "cube": 5, "linked": 5, "aligned": 5, "pressure": 2, "indexed": 6, "hist": 2, "prof": 2}
 
 
 def cases(tier, seed):
@@ -808,8 +1012,10 @@ def cases(tier, seed):
 def run_case(ctx, case):
     fam, i = case
     for h in range(PER_BLOCK[fam]):
-        if fam in ("table", "cube", "linked"):
+        if fam in ("table", "cube", "linked", "aligned"):
             run_state_history(ctx, fam, [i, h])
+        elif fam == "pressure":
+            run_pressure_history(ctx, [i, h])
         elif fam == "indexed":
             V.run_indexed_history(ctx, [i, h])
         elif fam == "hist":
@@ -849,9 +1055,13 @@ def floors(c, tier):
     for k, n in kinds.items():
         if c.get("truth_changed_kind:" + k, 0) < n:
             out.append("fewer than %d changed-truth re-reads of kind %s (%d)" % (n, k, c.get("truth_changed_kind:" + k, 0)))
-    for fl in ("state:table", "state:cube", "state:linked", "indexed", "hist", "prof"):
+    for fl in ("state:table", "state:cube", "state:linked", "state:aligned", "pressure", "indexed", "hist", "prof"):
         if c.get("histories:" + fl, 0) < 5:
             out.append("fewer than 5 histories of family %s" % fl)
+    if c.get("post_mutation_rereads_truth_changed:after_more_than_4096_memo_entries", 0) < 20:
+        out.append("fewer than 20 changed-truth re-reads after one memo had been filled with more than 4096 entries")
+    if c.get("post_mutation_rereads_truth_changed:link_change_to_no_links_at_all", 0) < 10:
+        out.append("fewer than 10 changed-truth re-reads after all links of pixel-aligned datasets were removed at once")
     bad = sum(v for k, v in c.items() if k.startswith("twin_build_failed"))
     if bad > 0.02 * max(1, c.get("histories", 0)):
         out.append("twin could not be built in %d histories" % bad)
